@@ -51,7 +51,8 @@ from .. import findings as F
 
 PROPERTY = "C15"
 RULE = ("case = history of 4-30 operations (primitive customisation with generated facets, "
-        "customize(**attrs), child_attrs / child_attrs_all (incl. inherited and not-yet-existing "
+        "customize(**attrs) incl. prot= / protocol= / p= with instances of user-written protocol "
+        "classes that declare class-level type_attrs, child_attrs / child_attrs_all (incl. inherited and not-yet-existing "
         "fields), Array / Iterable / Array(wrapped=False) / customize(max_occurs), Mandatory, new "
         "class, subclass, append_field / insert_field) drawn as one JSON value by Hypothesis, plus "
         "the exhaustive enumeration of all 2-step (thorough: 3-step) continuations of a base+"
@@ -218,37 +219,54 @@ def _values_ok(A, v):
 
 
 def ref_verdicts(fam, A):
-    """what the documented meaning of the attributes says about the probes"""
+    """what the documented meaning of the attributes says about the probes.  After a reported
+    attribute difference A holds the ACTUAL values, which on a defective tree can be ill-typed
+    for the family (a datetime bound on a Decimal): such a probe is "raise:<type>" on both sides,
+    as in live_verdicts."""
     nil = bool(A["nillable"])
     sp, np_ = probes_for(fam)
     out = []
     for s in sp:
-        ok = nil or s is not None
-        if ok and s is not None:
-            if fam == "text":
-                ok = A["min_len"] <= len(s) <= A["max_len"]
-            elif fam in ("int", "int32", "dec", "dbl"):
-                ok = len(s) <= A["max_str_len"]
-        out.append(bool(ok))
+        try:
+            out.append(_ref_string_ok(fam, A, nil, s))
+        except Exception as e:
+            out.append("raise:" + type(e).__name__)
     for v in np_:
-        ok = (nil or v is not None) and _values_ok(A, v)
-        if ok and v is not None:
-            if fam == "text":
-                p = A.get("pattern")
-                if p is not None:
-                    m = re.compile(p).match(v)
-                    ok = m is not None and m.span() == (0, len(v))
-            elif fam in ("int", "int32", "dec", "dbl"):
-                ok = v > A["gt"] and v >= A["ge"] and v < A["lt"] and v <= A["le"]
-                if ok and fam in ("int", "int32"):
-                    ok = int(v) == v
-                if ok and fam == "int32":
-                    ok = -2 ** 31 <= v <= 2 ** 31 - 1
-            elif fam == "dt":
-                ok = ((A["gt"] is None or v > A["gt"]) and v >= A["ge"]
-                      and (A["lt"] is None or v < A["lt"]) and v <= A["le"])
-        out.append(bool(ok))
+        try:
+            out.append(_ref_native_ok(fam, A, nil, v))
+        except Exception as e:
+            out.append("raise:" + type(e).__name__)
     return out
+
+
+def _ref_string_ok(fam, A, nil, s):
+    ok = nil or s is not None
+    if ok and s is not None:
+        if fam == "text":
+            ok = A["min_len"] <= len(s) <= A["max_len"]
+        elif fam in ("int", "int32", "dec", "dbl"):
+            ok = len(s) <= A["max_str_len"]
+    return bool(ok)
+
+
+def _ref_native_ok(fam, A, nil, v):
+    ok = (nil or v is not None) and _values_ok(A, v)
+    if ok and v is not None:
+        if fam == "text":
+            p = A.get("pattern")
+            if p is not None:
+                m = re.compile(p).match(v)
+                ok = m is not None and m.span() == (0, len(v))
+        elif fam in ("int", "int32", "dec", "dbl"):
+            ok = v > A["gt"] and v >= A["ge"] and v < A["lt"] and v <= A["le"]
+            if ok and fam in ("int", "int32"):
+                ok = int(v) == v
+            if ok and fam == "int32":
+                ok = -2 ** 31 <= v <= 2 ** 31 - 1
+        elif fam == "dt":
+            ok = ((A["gt"] is None or v > A["gt"]) and v >= A["ge"]
+                  and (A["lt"] is None or v < A["lt"]) and v <= A["le"])
+    return bool(ok)
 
 
 # --------------------------------------------------------------------------- reference nodes
@@ -312,6 +330,7 @@ class Machine(object):
         self.evolving = None
         self._preach = None
         self.tmpl = {}
+        self._prots = None
         for name, cls, fam in S["roots"]:
             n = self._new("simple", fam, dict(S["pristine"][name]), how="root", label=name)
             self._register(cls, n)
@@ -320,6 +339,39 @@ class Machine(object):
             n = self._new(kind, kind, dict(S["pristine"][name]), how="root", label=name)
             self._register(cls, n)
             self.tmpl[name] = n.id
+
+    # -- user-written protocols with class-level type_attrs ---------------
+    PROT_SPELLINGS = ("prot", "protocol", "p")
+
+    def prots(self):
+        """name -> (instance, type_attrs as declared).  Fresh classes per Machine, so a case
+        never depends on what an earlier case did to a class-level dict."""
+        if self._prots is None:
+            from spyne.protocol.json import JsonDocument
+            from spyne.protocol.xml import XmlDocument
+            ta1 = {"doc": "pdoc", "min_occurs": 1}
+            ta2 = {"nillable": False}
+            TA1 = type("TA1Json", (JsonDocument,), {"type_attrs": dict(ta1)})
+            TA2 = type("TA2Xml", (XmlDocument,), {"type_attrs": dict(ta2)})
+            self._prots = {"a0": (TA1(), ta1), "a1": (TA1(), ta1), "b0": (TA2(), ta2),
+                           "b1": (TA2(), ta2), "n0": (JsonDocument(), {})}
+        return self._prots
+
+    def with_prot(self, kw):
+        """kw as generated -> (keywords for the live call, keywords of the reference model):
+        customize(prot=p, **kw) == customize(**{**p.type_attrs, **kw}) with Attributes.prot = p"""
+        kw = dict(kw)
+        name = kw.pop("@prot", None)
+        if name is None:
+            return kw, kw
+        name, _, spelled = name.partition("/")
+        inst, declared = self.prots()[name]
+        live = dict(kw)
+        live[spelled or "prot"] = inst
+        eff = dict(declared)
+        eff.update(kw)
+        eff["prot"] = inst
+        return live, eff
 
     # -- reference bookkeeping --------------------------------------------
     def _new(self, kind, fam, attrs, **kw):
@@ -867,7 +919,8 @@ class Machine(object):
         if src.fam != "text":
             for k in ("max_len", "min_len"):
                 kw.pop(k, None)
-        eff = dict(kw)
+        kw, eff = self.with_prot(kw)
+        eff = dict(eff)
         if pos and src.fam == "text":
             eff["max_len"] = pos[0]
         elif pos and src.fam == "dec":
@@ -944,10 +997,10 @@ class Machine(object):
     def op_cust(self, step):
         sid = self.pick(step.get("src", 0), lambda n: n.kind in ("complex", "array"))
         src = self.nodes[sid]
-        kw = self._complex_kw(step.get("kw"))
+        kw, eff = self.with_prot(self._complex_kw(step.get("kw")))
 
         def thunk():
-            nid = self.r_customize_complex(sid, kw, "customize")
+            nid = self.r_customize_complex(sid, eff, "customize")
             return [(src.cls.customize(**kw), nid)]
         return "customize_complex", [sid], thunk
 
@@ -1380,6 +1433,9 @@ _FAM_KW = {
         "encoding": st.sampled_from(["hex", "base64", "urlsafe_base64"])}),
 }
 _idx = st.integers(0, 40)
+# a user-written protocol with class-level type_attrs, passed as prot= / protocol= / p=
+_prot = st.tuples(st.sampled_from(["a0", "a1", "b0", "b1", "n0"]),
+                  st.sampled_from(["prot", "prot", "protocol", "p"])).map("/".join)
 
 
 @st.composite
@@ -1390,6 +1446,8 @@ def _prim_step(draw):
     step = {"op": "prim", "fam": fam, "src": draw(_idx),
             "how": draw(st.sampled_from(["call", "customize", "customize", "index"])),
             "kw": {k: _enc(v) for k, v in kw.items()}}
+    if draw(st.integers(0, 3)) == 0:
+        step["kw"]["@prot"] = draw(_prot)
     if fam == "text" and draw(st.integers(0, 5)) == 0:
         step["pos"] = [draw(st.integers(1, 12))]
         step["how"] = "call"
@@ -1427,7 +1485,10 @@ def _complex_step(draw, op):
     if op == "sub":
         return {"op": "sub", "src": draw(_idx), "fields": draw(_fields), "style": draw(_style)}
     if op == "cust":
-        return {"op": "cust", "src": draw(_idx), "kw": draw(_ckw)}
+        s = {"op": "cust", "src": draw(_idx), "kw": dict(draw(_ckw))}
+        if draw(st.integers(0, 3)) == 0:
+            s["kw"]["@prot"] = draw(_prot)
+        return s
     if op == "child":
         s = {"op": "child", "src": draw(_idx),
              "sel": draw(st.lists(st.tuples(_idx, _sel_kw).map(list), min_size=1, max_size=3)),
